@@ -1,8 +1,15 @@
 #!/bin/sh
-# tools/import_all.sh [seed-source-root]   (default /tmp/wt): verify + test every seed found there and store it under seeded/
-R=${1:-/tmp/wt}; cd "$(dirname "$0")/.."
-for d in "$R"/C??_out/?; do
-  id=$(basename "$(dirname "$d")" | sed 's/_out//')-$(basename "$d"); prop=$(echo "$id" | cut -c1-3)
-  [ -f "$d/patch.diff" ] && tools/import_seed.py "$d" "$id" "$prop" 2>&1 | tail -1 | cut -c1-200
+# tools/import_all.sh [seed-source-root] [jobs]  (default /tmp/wt, 3): verify + test every seed found there and store it under seeded/.
+# Each job uses its own scratch worktree of /repo (/tmp/wt/imp<k>, created here and removed at the end); /repo itself is never touched.
+R=${1:-/tmp/wt}; J=${2:-3}; cd "$(dirname "$0")/.."
+for k in $(seq 1 $J); do git -C /repo worktree remove --force /tmp/wt/imp$k 2>/dev/null; git -C /repo worktree add -q --detach /tmp/wt/imp$k HEAD; done
+ls -d "$R"/C??_out/? | awk -v J=$J '{print (NR % J) + 1, $0}' > /tmp/wt/import_jobs.txt
+for k in $(seq 1 $J); do
+  ( grep "^$k " /tmp/wt/import_jobs.txt | cut -d" " -f2 | while read d; do
+      id=$(basename "$(dirname "$d")" | sed 's/_out//')-$(basename "$d"); prop=$(echo "$id" | cut -c1-3)
+      [ -f "$d/patch.diff" ] && SEED_WT=/tmp/wt/imp$k tools/import_seed.py "$d" "$id" "$prop" 2>&1 | tail -1 | cut -c1-200
+    done ) &
 done
+wait
+for k in $(seq 1 $J); do git -C /repo worktree remove --force /tmp/wt/imp$k; rm -f /tmp/wt/imp$k.demo_*.txt; done
 echo ALLDONE
